@@ -22,7 +22,7 @@
 
    `wf r` bounds the parameters; `print` is total on well-formed reports. *)
 From Coq Require Import List NArith Bool.
-From SNT Require Import Base.Dec10 Render.FaceModel Encoder.FaceEnc Decoder.EvModel.
+From SNT Require Import Base.Dec10 Render.FaceModel Encoder.FaceEnc Decoder.SgrRef Decoder.EvModel.
 Import ListNotations.
 Local Open Scope N_scope.
 
@@ -45,7 +45,9 @@ Inductive report :=
 | RColor (name : tcolor) (c : rgba) (form : cform) (upper : bool) (e : osc_end)
 | RTermcapOk (caps : list (list N * list N)) (upper : bool)
 | RTermcapFail (names : list (list N)) (upper : bool)
-| RPaste (text : list N).
+| RPaste (text : list N)
+| RSgr (params : list N)                               (* CSI params m *)
+| RFaceReport (params : list N).                       (* DECRPSS reply to DECRQSS m: DCS 1 $ r params m ST *)
 
 Definition CSI : list N := [27; 91].
 Definition ST : list N := [27; 92].
@@ -174,6 +176,8 @@ Definition print (r : report) : list N :=
   | RTermcapFail names upper =>
       [27; 80; 48; 43; 114] ++ join_with [59] (map (hex_string upper) names) ++ ST
   | RPaste text => CSI ++ [50; 48; 48; 126] ++ text ++ CSI ++ [50; 48; 49; 126]
+  | RSgr params => CSI ++ params ++ [109]
+  | RFaceReport params => [27; 80; 49; 36; 114] ++ params ++ [109] ++ ST
   end.
 
 Fixpoint lit_lookup (tab : list (list N * (kname * N))) (w : list N) : option (kname * N) :=
@@ -181,6 +185,15 @@ Fixpoint lit_lookup (tab : list (list N * (kname * N))) (w : list N) : option (k
   | [] => None
   | (w', k) :: r => if bytes_eqb w' w then Some k else lit_lookup r w
   end.
+
+(* a rendition as the library's Face value: packed underline style + flag bits (constants of
+   src/face.rs, regenerated) *)
+Definition face_of_rface (r : rface) : face :=
+  mkFace (r_fg r) (r_bg r)
+         (ustyle_bits (r_ul r)
+          + (if r_bold r then FA_BOLD else 0) + (if r_italic r then FA_ITALIC else 0)
+          + (if r_blink r then FA_BLINK else 0) + (if r_reverse r then FA_REVERSE else 0)
+          + (if r_strike r then FA_STRIKE else 0)).
 
 (* `tab`: the library's naming table for literal sequences *)
 Definition denote (tab : list (list N * (kname * N))) (r : report) : tev :=
@@ -200,6 +213,8 @@ Definition denote (tab : list (list N * (kname * N))) (r : report) : tev :=
   | RTermcapOk caps _ => ETermcap (map (fun kv => (fst kv, Some (snd kv))) caps)
   | RTermcapFail names _ => ETermcap (map (fun k => (k, None)) names)
   | RPaste text => EPaste text
+  | RSgr _ => ERaw []      (* a modification record is compared by its meaning: see sgr_event_ok *)
+  | RFaceReport params => EFaceGet (face_of_rface (ref_sgr params rface_default))
   end.
 
 (* ---- well-formedness ---- *)
@@ -271,5 +286,13 @@ Section Wf.
     | RTermcapFail names upper =>
         negb (match names with [] => true | _ => false end) && forallb name_ok names && keys_increasing names
     | RPaste text => Payload.utf8_valid text && forallb text_byte_ok text
+    | RSgr params | RFaceReport params => sgr_wf params && negb (sgr_inexpressible params)
     end.
 End Wf.
+
+(* an SGR sequence denotes a face modification whose MEANING is the reference SGR machine; as a
+   boolean test on three renditions that differ from each other in every aspect *)
+Definition probe1 : rface := mkR (Some (RGBA 1 1 1 255)) (Some (RGBA 2 2 2 255)) UDotted true true true true true.
+Definition probe2 : rface := mkR (Some (RGBA 3 3 3 255)) (Some (RGBA 4 4 4 255)) UDashed true true true false true.
+Definition sgr_event_ok (params : list N) (m : face_modify) : bool :=
+  forallb (fun r => rface_eqb (rapply m r) (ref_sgr params r)) [rface_default; probe1; probe2].
